@@ -7,8 +7,8 @@ TECHNIQUE = ("Lean 4 theorems over a hand-written executable model of nelder_mea
 LEVEL_TEXT = ("Proved for all real inputs of the model: one Nelder-Mead iteration on a NaN-free cost never fails, keeps the simplex sorted "
               "and never increases the best vertex's cost; nelder_mead_1d therefore returns a value whose bounded cost is <= that of both "
               "seeds and which lies inside [lo,hi] as soon as one seed does with finite cost; optimum_poling_period: Ok(L) => sign L = "
-              "sign of the unpoled dkz, MIN_POSITIVE <= |L| <= crystal length; Err for every cost closure when 2pi/|z| - 1e-6 > L; "
-              "Ok(inf) iff z = 0; collinear signal (cost |z - k_eff(L)|): the returned period is exactly 2pi/z whenever 2pi/|z| <= L; "
+              "sign of the unpoled dkz, MIN_POSITIVE <= |L| < crystal length (1 - 1e-9); Err for every cost closure when 2pi/|z| - 1e-6 > L; "
+              "Ok(inf) iff z = 0; collinear signal (cost |z - k_eff(L)|): the returned period is exactly 2pi/z whenever 2pi/|z| < L (1 - 1e-9); "
               "optimum_theta in [0, pi/2] when the cost is finite at the seed pi/6; the |dkz| L/2 < 1e-3 clause with the optimiser's "
               "convergence as an explicit hypothesis (dkz_bound_partial). The Float run of the same definitions agrees bit-for-bit with "
               "nelder_mead_1d (result, number of cost evaluations, xor of evaluated points), optimum_poling_period, compute_sign and "
